@@ -34,6 +34,25 @@ static inline void l_sort_concrete(QLst *l, int order)
 static inline void std_sort3(QLst *b, QLst *e, int order) { MODEL_LIMIT(b == e, "std::sort over begin()/end() of two different containers"); l_sort_concrete(b, order); }
 static inline void std_sort2(QLst *b, QLst *e) { std_sort3(b, e, ORDER_STR_LT); }
 static inline void qlst_sort(QLst *l) { l_sort_concrete(l, ORDER_STR_LT); }
+/* std::unique compacts runs of adjacent equal elements to the front; erase(that, end()) cuts the rest off */
+QLst *gb_unique_of; int gb_unique_keep;
+static inline QLst *std_unique(QLst *b, QLst *e)
+{
+  MODEL_LIMIT(b == e && b->n >= 0 && b->n <= BL, "std::unique over begin()/end() of two different containers / list longer than BL");
+  int m = 0;
+  for (int i = 0; i < BL; i++) {
+    if (i >= b->n) break;
+    if (m == 0 || b->e[m - 1] != b->e[i]) { b->e[m] = b->e[i]; m++; }
+  }
+  gb_unique_of = b; gb_unique_keep = m;
+  return b;
+}
+static inline void qlst_erase(QLst *l, QLst *first, QLst *last)
+{
+  MODEL_LIMIT(first == l && last == l && gb_unique_of == l, "QList::erase other than l.erase(std::unique(l.begin(), l.end()), l.end())");
+  for (int i = 0; i < BL; i++) if (i >= gb_unique_keep) l->e[i] = 0;
+  l->n = gb_unique_keep; gb_unique_of = NULL;
+}
 static inline int qlst_removeDuplicates(QLst *l)
 {
   MODEL_LIMIT(l->n >= 0 && l->n <= BL, "bounded stand-in: list longer than BL");
